@@ -44,15 +44,15 @@ def _models(log):
         for nm in dir(param):
             c = getattr(param, nm)
             if isinstance(c, type) and hasattr(c, "build") and nm.endswith("_param"):
-                m.register(c.build.__func__, (lambda n: lambda interp, args, kw: log.append(("param", n, tuple(args[1:]))))(nm), verified_by="contracts/params.py")
+                m.register(c.build.__func__, (lambda n: lambda interp, args, kw: log.append(("param", n, tuple(args[1:]), dict(kw))))(nm), verified_by="contracts/params.py")
         for nm in dir(var):
             f = getattr(var, nm)
             if isinstance(f, types.FunctionType) and nm.endswith("_var"):
-                m.register(f, (lambda n: lambda interp, args, kw: log.append(("var", n, tuple(args))))(nm), verified_by="contracts/builders.py")
+                m.register(f, (lambda n: lambda interp, args, kw: log.append(("var", n, tuple(args), dict(kw))))(nm), verified_by="contracts/builders.py")
         for nm in dir(constraint):
             c = getattr(constraint, nm)
             if isinstance(c, type) and hasattr(c, "build") and nm.endswith("_constraint"):
-                m.register(c.build.__func__, (lambda n: lambda interp, args, kw: log.append(("constraint", n, tuple(args[1:]))))(nm), verified_by="contracts/builders.py")
+                m.register(c.build.__func__, (lambda n: lambda interp, args, kw: log.append(("constraint", n, tuple(args[1:]), dict(kw))))(nm), verified_by="contracts/builders.py")
         return m
     return build
 
@@ -62,8 +62,14 @@ def _case(mode, hw, pbv=0, gpv=0, headloss="H-W"):
 
     def build(cx):
         del log[:]
+        # two junctions (one without demand), so that code which singles out elements by their attributes runs instead of tripping over the stub
+        juncs = [("J0", types.SimpleNamespace(name="J0", base_demand=0.0, demand_timeseries_list=[], leak_status=False)),
+                 ("J1", types.SimpleNamespace(name="J1", base_demand=0.01, demand_timeseries_list=[1], leak_status=False))]
         wn = types.SimpleNamespace(options=types.SimpleNamespace(hydraulic=types.SimpleNamespace(demand_model=mode, headloss=headloss)),
-                                   pbv_name_list=["v"] * pbv, gpv_name_list=["g"] * gpv)
+                                   pbv_name_list=["v"] * pbv, gpv_name_list=["g"] * gpv,
+                                   junctions=lambda: list(juncs), junction_name_list=[n for n, _ in juncs], nodes=lambda *a: list(juncs), node_name_list=[n for n, _ in juncs],
+                                   tanks=lambda: [], reservoirs=lambda: [], links=lambda *a: [], pipes=lambda: [], pumps=lambda: [], valves=lambda: [],
+                                   num_junctions=2, num_nodes=2)
         refuse = pbv or gpv or headloss in ("C-M", "D-W")
         cx.allow_raise(NotImplementedError, bool(refuse))
         cx.allow_raise(ValueError, mode not in ("DD", "DDA", "PDD", "PDA") or hw not in ("default", "piecewise"))
@@ -84,7 +90,9 @@ def _case(mode, hw, pbv=0, gpv=0, headloss="H-W"):
             args_ok = all(e[2] == ("model", wn, "updater") for e in log if e[0] == "constraint" or (e[0] == "param" and e[1] not in PARAM_FUNCS)) and \
                 all(e[2] == ("model", wn) for e in log if e[0] == "var" or (e[0] == "param" and e[1] in PARAM_FUNCS)) and \
                 all(e[2] == ("model",) for e in log if e[0] == "constants")
+            whole = all(not any(v is not None for v in e[3].values()) for e in log if len(e) > 3)
             return [("refusal_cases_do_not_return", not refuse),
+                    ("every_definition_is_built_over_the_whole_network_no_element_is_singled_out", whole),
                     ("mass_balance_of_the_demand_model_one_head_loss_law_per_link_type_leaks_and_demand_curve_each_built_once", sorted(cons) == sorted(want_cons)),
                     ("every_parameter_family_built_once", sorted(pars) == sorted(want_pars)),
                     ("every_variable_family_built_once", sorted(vars_) == sorted(want_vars)),
